@@ -17,9 +17,10 @@ RULE = ("generated pairs (a, b=a+delta) with delta = tol*(1+-eps), eps in {1e-6,
         "part differs by <= abs (abs given) or <= rel*max|.| (no abs); the thin band between is not generated. "
         "non-trivial = delta != 0 and within a factor 1.2 of the tolerance; distinct = distinct (a, delta, tolerances, units, api).")
 RULE = RULE + ' Also: quantities of information and of a user-defined Dimension against dimensionless quantities, frequencies and bare numbers with equal numbers: must fail; equal amounts of information in other units: must pass.'
+RULE = RULE + ' Also: one-sided complex pairs (one operand real, the other with the same real part and a non-zero imaginary part), both operand orders.'
 ASSUMPTIONS = ["vf/units_ref.py table for unit values", "exact rational arithmetic for the reference predicate"]
 N = {"quick": 6400, "thorough": 112000}
-MIN_REACH = {"quick": {"zero_relative_tolerance": 100, "must_pass": 1500, "must_fail": 1500, "complex": 800, "dimension_mismatch": 300, "swap": 500,
+MIN_REACH = {"quick": {"zero_relative_tolerance": 100, "must_pass": 1500, "must_fail": 1500, "complex": 800, "one_sided_complex": 300, "dimension_mismatch": 300, "swap": 500,
                        "respell": 500, "bare_number": 200, "vector": 200, "vector_length_mismatch": 50, "foreign_dimension": 100},
              "thorough": {"must_pass": 25000, "must_fail": 25000}}
 SHARD_TIMEOUT = {"quick": 300, "thorough": 2400}
@@ -309,6 +310,19 @@ def work(spec, rec):
                 run_case(c, rec, r2)
         except TimeoutError:
             rec.inconc("watchdog")
+        if i % 4 == 0 and Fr(c["a"][0]) != 0:
+            # one-sided complex pairs: one operand real, the other with the same real part and an imaginary part of its own
+            # (no draw from the main stream; the reference verdict decides, both operand orders)
+            a_re = Fr(c["a"][0])
+            b_im = a_re * (Fr(1), Fr(1, 2), Fr(3), Fr(1, 100))[(i // 4) % 4]
+            for first, second in (([str(a_re), "0"], [str(a_re), str(b_im)]), ([str(a_re), str(b_im)], [str(a_re), "0"])):
+                c1 = dict(c, a=first, b=second, part="im", want="fail", one_sided=True)
+                rec.hit("one_sided_complex")
+                try:
+                    with harness.Watchdog(20):
+                        run_case(c1, rec, harness.rng_for("C08c", harness.h(c1)))
+                except TimeoutError:
+                    rec.inconc("watchdog")
 
 
 def replay(case, rec):
